@@ -268,11 +268,14 @@ def leaf_columns(col):
         # an ordinary REQUIRED primitive column next to the nested ones (no levels at all)
         return [dict(path=[col["name"]], row_opt=False, elem_opt=False, ptype=col["ptype"], which="flat")]
     if col["kind"] == "list":
-        return [dict(path=[col["name"], "list", "element"], row_opt=col["row_opt"],
+        # LogicalTypes.md: the middle group "list" and the leaf "element" are the recommended names; older writers
+        # use others (bag/array_element, array/item) and readers must not depend on them
+        return [dict(path=[col["name"], col.get("group_name", "list"), col.get("elem_name", "element")], row_opt=col["row_opt"],
                      elem_opt=col["elem_opt"], ptype=col["ptype"], which="elem")]
-    return [dict(path=[col["name"], "key_value", "key"], row_opt=col["row_opt"], elem_opt=False,
+    g = col.get("group_name", "key_value")          # "map" in files of older writers
+    return [dict(path=[col["name"], g, "key"], row_opt=col["row_opt"], elem_opt=False,
                  ptype=col["key_ptype"], which="key"),
-            dict(path=[col["name"], "key_value", "value"], row_opt=col["row_opt"],
+            dict(path=[col["name"], g, "value"], row_opt=col["row_opt"],
                  elem_opt=col["elem_opt"], ptype=col["ptype"], which="value")]
 
 
@@ -299,13 +302,13 @@ def schema_elements(cols):
             t, ct = PTYPES[c["ptype"]]
             out.append(pt.SchemaElement(name=c["name"], repetition_type=top, num_children=1,
                                         converted_type=pt.ConvertedType.LIST, i32=1))
-            out.append(pt.SchemaElement(name="list", repetition_type=REP, num_children=1, i32=1))
-            out.append(pt.SchemaElement(name="element", type=t, converted_type=ct,
+            out.append(pt.SchemaElement(name=c.get("group_name", "list"), repetition_type=REP, num_children=1, i32=1))
+            out.append(pt.SchemaElement(name=c.get("elem_name", "element"), type=t, converted_type=ct,
                                         repetition_type=OPT if c["elem_opt"] else REQ, i32=1))
         else:
             out.append(pt.SchemaElement(name=c["name"], repetition_type=top, num_children=1,
                                         converted_type=pt.ConvertedType.MAP, i32=1))
-            out.append(pt.SchemaElement(name="key_value", repetition_type=REP, num_children=2,
+            out.append(pt.SchemaElement(name=c.get("group_name", "key_value"), repetition_type=REP, num_children=2,
                                         converted_type=pt.ConvertedType.MAP_KEY_VALUE, i32=1))
             t, ct = PTYPES[c["key_ptype"]]
             out.append(pt.SchemaElement(name="key", type=t, converted_type=ct, repetition_type=REQ, i32=1))
